@@ -30,6 +30,17 @@ func Options(v px.Ver) phpgen.Options {
 	}
 }
 
+// StructuralOptions is Options without the three switches that exist only because of *span* findings
+// (php5-goto-label-span, php5-new-chain-span, encapsed-var-dim-span): checks that do not compare node
+// positions with the generator's model (round trip, structure, formatting, traversal, observers,
+// recovery, dumps ...) generate those constructs, so that a span finding does not hide them from
+// every other property.
+func StructuralOptions(v px.Ver) phpgen.Options {
+	o := Options(v)
+	o.NoPHP5Goto, o.NoPHP5NewChain, o.NoEncapsedVarDim = false, false, false
+	return o
+}
+
 // Padding draws, for about one case in eight, inline HTML to put in front of the program so that
 // all of its tokens lie beyond a size threshold: > 256 lines, > 65536 bytes, > 65536 lines (LF or CRLF).
 func Padding(rt *rapid.T) []byte {
